@@ -22,7 +22,8 @@ RULE = ("random operand pairs a, b (all constructors, sizes 1-20, including oper
 ASSUMPTIONS = ["bool exponents are not exercised (bool is an int subclass in Python; the statement does not speak about them)"]
 
 FOREIGN = [0, 1, 2, -3, 2.5, 1.0, "x", "2", None, [1], (1, 2), 2 + 0j, {"x": 1}, object(), float("nan"), float("inf")]
-BAD_EXPONENTS = [0, -1, -2, 0.0, -3.0, 2.5, 0.5, 1e-9, float("nan"), float("inf"), -float("inf"), "2", None, 2 + 0j, [2], (3,), 1.0000000001]
+BAD_EXPONENTS = [0, -1, -2, 0.0, -3.0, 2.5, 0.5, 1e-9, float("nan"), float("inf"), -float("inf"), "2", None, 2 + 0j, [2], (3,), 1.0000000001,
+                 math.nextafter(2, 3), math.nextafter(3, 2), 2.9999999999, 1 + 2 ** -45, 0.29 * 100, 4 - 1e-12]
 
 
 def make_case(rng, tier):
